@@ -243,6 +243,7 @@ type Frame struct {
 	// decoder confinement: root symbols of input-derived slices
 	confine map[*Term]bool
 	binds   []Val // closure bindings (addresses of captured cells / values)
+	iters   map[ssa.Value]*mapIter
 }
 
 func (fr *Frame) clone() *Frame {
@@ -250,6 +251,13 @@ func (fr *Frame) clone() *Frame {
 	n.regs = make(map[ssa.Value]Val, len(fr.regs)+8)
 	for k, v := range fr.regs {
 		n.regs[k] = v
+	}
+	if fr.iters != nil {
+		n.iters = map[ssa.Value]*mapIter{}
+		for k, v := range fr.iters {
+			c := *v
+			n.iters[k] = &c
+		}
 	}
 	n.visits = make(map[*ssa.BasicBlock]int, len(fr.visits))
 	for k, v := range fr.visits {
@@ -279,6 +287,7 @@ type Obligation struct {
 	queries []*Term // terms to evaluate in a model
 	qnames  []string
 	Trivial bool // goal folded to true syntactically
+	Hints   []*Term // cover obligations only: extra equalities that pick one concrete witness (sound: sat with hints implies sat without)
 	TimeoutS int // per-function override of the quick-tier solver timeout
 
 	// filled by discharge
@@ -311,6 +320,7 @@ type Exec struct {
 	unsup   []string // reasons the function is outside reach
 	globals map[*ssa.Global]*Term
 	strs    map[string]Val
+	hints   []*Term // witness hints for vacuity covers
 	closFn  []*ssa.Function
 	base    [4]*Term
 	brk0    *Term
@@ -717,6 +727,14 @@ func (e *Exec) oblige(st State, fn *ssa.Function, kind, label string, pos token.
 	if e.mute > 0 {
 		// pure evaluation inside a contract expression: the callee is verified on its own
 		return st.assume(goal)
+	}
+	if goal.Op == OAnd && len(goal.Args) >= 16 {
+		// a large ground conjunction: one instance per conjunct (each is small for the solver)
+		s2 := st
+		for _, g := range goal.Args {
+			e.oblige(st, fn, kind, label, pos, g)
+		}
+		return s2.assume(goal)
 	}
 	fname := "?"
 	if fn != nil {
